@@ -65,18 +65,26 @@ class Call(object):
         self.nested = False         # sits in a nested def / lambda
         self.unresolvable = False   # callee reached through a subscripted registry
         self.inline = False         # an argument expression of this very call mutates **kwargs
+        self.tail = 0               # how many of the n literal positionals are written AFTER the star argument
 
     def expr(self, callee_expr, va_name, vk_name, chain=None):
         args = [str(100 + i) for i in range(self.n)]
         if self.inline and args:
             # evaluated before **kwargs is unpacked: the callee no longer gets the pristine mapping
             args[0] = "%s.pop('zz_', 100)" % vk_name
+        tail = min(self.tail, len(args)) if (self.va or self.own_va) else 0
+        args, after = args[:len(args) - tail], args[len(args) - tail:]
         if chain == 'chain_pos':
             args.insert(0, self.callee)
+        if chain == 'chain_pick':
+            # a dispatcher called with a run-time-only value BEFORE two known callables: it calls the first
+            args[0:0] = ['len(OWN_ARGS)', self.callee, 'pick_other_']
         if self.va:
             args.append('*' + va_name)
         if self.own_va:
             args.append('*OWN_ARGS')
+        # literal positionals written after the star argument (legal since Python 3.5)
+        args += after
         kwvals = ['%d' % (200 + i) for i in range(len(self.names))]
         if self.inline and not self.n and kwvals:
             kwvals[0] = "%s.setdefault('zz_', 200) and %s.pop('zz_')" % (vk_name, vk_name)
@@ -105,13 +113,14 @@ class Call(object):
         return {'callee': self.callee, 'n': self.n, 'names': [name_of(k) for k in self.names],
                 'va': self.va, 'vk': self.vk, 'own_va': self.own_va, 'own_vk': self.own_vk,
                 'partial': self.partial, 'nested': self.nested, 'unresolvable': self.unresolvable,
-                'inline': self.inline}
+                'inline': self.inline, 'tail': self.tail}
 
 
 CONTEXTS = ['return', 'assign', 'if', 'try', 'with', 'comprehension', 'nested_def',
             'lambda', 'decoy_before', 'decoy_wrap', 'ifelse2', 'nested_decoy', 'lambda_decoy']
 ROUTES = ['global', 'closure', 'attribute', 'method', 'parameter', 'partial_route', 'chain_kw', 'chain_pos',
           'modifiers', 'param_default']
+WRAPS_KINDS = ['stored', 'stored', 'annotate', 'upgraded', 'stored_update', 'plain']
 TAINTS = ['rebind', 'augassign', 'mutate_method', 'mutate_item', 'delete', 'pass_on',
           'nonlocal', 'read', 'inline']
 
@@ -128,6 +137,7 @@ class Prog(object):
         self.rename_locals = False
         self.nosource = False       # callees defined through exec: no retrievable source
         self.falsy_inst = False     # method route: the instance's truth value is False (an empty container)
+        self.wraps_kind = None      # wraps_sig route: how the wrapped callee came to carry a stored __signature__
         self.source = None
 
     @property
@@ -149,7 +159,7 @@ class Prog(object):
                 'callees': {k: '(%s)' % param_list_src(v) for k, v in self.callees.items()},
                 'calls': [c.describe() for c in self.calls], 'context': self.context,
                 'route': self.route, 'taint': self.taint, 'decoys': self.decoys, 'nosource': self.nosource,
-                'falsy_inst': self.falsy_inst}
+                'falsy_inst': self.falsy_inst, 'wraps_kind': self.wraps_kind}
 
     # ------------------------------------------------------------ rendering
     def callee_expr(self, key):
@@ -163,7 +173,7 @@ class Prog(object):
             return 'self.' + key
         if self.route in ('parameter', 'param_default'):
             return 'fparam'
-        if self.route in ('chain_kw', 'chain_pos'):
+        if self.route in ('chain_kw', 'chain_pos', 'chain_pick'):
             return 'mid_' + self.route
         return key
 
@@ -341,6 +351,9 @@ class Prog(object):
             lines.append('REG = {%s}' % ', '.join("'%s': %s" % (k, k) for k in self.callees))
             lines += ['def mid_chain_kw(*args, fparam, **kwargs):', '    return fparam(*args, **kwargs)',
                       'def mid_chain_pos(fparam, *args, **kwargs):', '    return fparam(*args, **kwargs)']
+            if self.route == 'chain_pick':
+                lines += ['def pick_other_(p1_, p2_=1, *, p3_=2):', '    return None',
+                          'def mid_chain_pick(flag_, fparam, second_, *args, **kwargs):', '    return fparam(*args, **kwargs)']
             if self.route == 'attribute':
                 lines += ['class NS(object):', '    pass', 'ns = NS()', 'ns.sub = NS()']
                 for key in self.callees:
@@ -383,6 +396,27 @@ class Prog(object):
                 lines.append('def wrapper_(%s):' % ', '.join(parts))
                 lines += ['    ' + b for b in body]
                 lines.append('wrapper = functools.partial(wrapper_, 0)')
+            elif self.route == 'wraps_sig':
+                # a decorator that only wraps: functools.wraps(callee) / update_wrapper copy the callee's
+                # __dict__ -- including a __signature__ stored there -- and set __wrapped__; what is
+                # analysed is still the wrapper's own def
+                first = self.calls[0].callee
+                lines.insert(1, 'import inspect')
+                for k in self.callees:
+                    if self.wraps_kind in ('stored', 'stored_update'):
+                        lines.append('%s.__signature__ = inspect.signature(%s)' % (k, k))
+                    elif self.wraps_kind == 'annotate':
+                        lines += ['from sigtools import modifiers', '%s = modifiers.annotate(int)(%s)' % (k, k)]
+                    elif self.wraps_kind == 'upgraded':
+                        lines += ['from sigtools import signatures as sigs_', '%s.__signature__ = sigs_.signature(%s)' % (k, k)]
+                if self.wraps_kind == 'stored_update':
+                    lines.append('def wrapper(%s):' % outer_src)
+                    lines += ['    ' + b for b in body]
+                    lines.append('wrapper = functools.update_wrapper(wrapper, %s)' % first)
+                else:
+                    lines.append('@functools.wraps(%s)' % first)
+                    lines.append('def wrapper(%s):' % outer_src)
+                    lines += ['    ' + b for b in body]
             elif self.route == 'modifiers':
                 # two stacked modifiers: the analysis goes through the autoforwards hint
                 named = [name_of(q[0]) for q in self.outer if q[1] == 'PK']
@@ -464,7 +498,7 @@ def gen_programs(rng, count, tainted=False, contexts=None, routes=None, valid_on
             if p.context == 'ifelse2':
                 p.context = 'if'
         keys = ['callee', 'callee2'][:ncalls] if (second_unresolvable or rng.random() < 0.7) else ['callee'] * ncalls
-        if p.route in ('partial_route', 'chain_kw', 'chain_pos'):
+        if p.route in ('partial_route', 'chain_kw', 'chain_pos', 'chain_pick'):
             # reading a global name as an argument makes the walker forget it
             # (visit_Name), so a second partial(callee, ...) of the same name is
             # 'unresolvable' and yields the fallback: covered by the property's
@@ -499,6 +533,9 @@ def gen_programs(rng, count, tainted=False, contexts=None, routes=None, valid_on
                     vk = True
             partial = (p.route == 'partial_route')
             cobj = Call(key, n, names, va, vk, own_va, own_vk, partial)
+            if n and (va or own_va):
+                # where the literal positionals stand relative to the star argument (no draw from rng)
+                cobj.tail = (0, n, 1)[(tries + len(progs) + n) % 3]
             if (len(p.calls) == 1 and p.route in ('global', 'closure', 'attribute')
                     and (second_unresolvable or rng.random() < 0.25)):
                 cobj.unresolvable = True
@@ -514,6 +551,8 @@ def gen_programs(rng, count, tainted=False, contexts=None, routes=None, valid_on
             p.route = 'global'
             for c in p.calls:
                 c.partial = True
+        if p.route == 'wraps_sig':
+            p.wraps_kind = rng.choice(WRAPS_KINDS)
         p.decoys = rng.choice([0, 0, 1, 2])
         p.rename_locals = rng.random() < 0.3
         p.nosource = p.route != 'method' and rng.random() < 0.12
@@ -534,7 +573,7 @@ def gen_programs(rng, count, tainted=False, contexts=None, routes=None, valid_on
             if kind == 'inline':
                 c0 = p.calls[0]
                 if not (len(p.calls) == 1 and has_vk and c0.vk and (c0.n or c0.names) and not c0.partial
-                        and p.route not in ('chain_kw', 'chain_pos')):
+                        and p.route not in ('chain_kw', 'chain_pos', 'chain_pick')):
                     continue
                 c0.inline = True
                 star, where = 'kwargs', 'before'
